@@ -17,6 +17,8 @@ def design(ctx):
     vlib.tlc_design(ctx, "BeaconNet", "MC_BeaconNet.cfg" if ctx.tier == "thorough" else "MC_BeaconNet_Quick.cfg", timeout=1500)
     for name, expect in DEVS:
         vlib.tlc_design(ctx, "BeaconNet", "MC_BeaconNet_%s.cfg" % name, timeout=300, expect_violation=expect)
+    # for arbitrary constants: what is accepted satisfies the binding rules; after a refusal nothing reaches the store (TLAPS, 124 obligations)
+    vlib.tlaps(ctx, "BeaconNet_proofs")
 
 
 def generate(ctx):
